@@ -78,20 +78,41 @@ package sipsp
 //@   modifies  *pcs
 //@   loop 0 "for i < len(buf)"
 //@     invariant offs <= i && i <= len(buf) && csOK(pcs, i)
+//@     invariant[C10] csNum(pcs, buf, i)
 //@     decreases len(buf) - i
+//@   requires[C10] csNum(pcs, buf, offs)
 //@   ensures   0 <= n && n <= len(buf)
 //@   ensures   err == ErrHdrOk || err == ErrHdrMoreBytes ==> offs <= n && csOK(pcs, n)
 //@   ensures   within(pcs.CSeq, len(buf)) && within(pcs.Method, len(buf)) && within(pcs.V, len(buf))
+//@   ensures[C10] "cseq-exact": err == ErrHdrOk && pcs_old.state != csFIN ==> pcs.CSeq.Len > 0 && allDigits(buf, int(pcs.CSeq.Offs), fend(pcs.CSeq)) &&
+//@                 uint64(pcs.CSeqNo) == satdec(buf, int(pcs.CSeq.Offs), fend(pcs.CSeq))
+//@   ensures[C10] "cseq-suspended": err == ErrHdrMoreBytes ==> csNum(pcs, buf, n)
 
 //@ func ParseUIntVal(buf, offs, pcl) (n, err)
 //@   requires  bufOK(buf) && 0 <= offs && offs <= len(buf) && pcl != nil && clOK(pcl, offs)
 //@   modifies  *pcl
 //@   loop 0 "for i < len(buf)"
 //@     invariant offs <= i && i <= len(buf) && clOK(pcl, i)
+//@     invariant[C10] clNum(pcl, buf, i)
 //@     decreases len(buf) - i
+//@   requires[C10] clNum(pcl, buf, offs)
 //@   ensures   0 <= n && n <= len(buf)
 //@   ensures   err == ErrHdrOk || err == ErrHdrMoreBytes ==> offs <= n && clOK(pcl, n)
 //@   ensures   within(pcl.SVal, len(buf))
+//@   ensures[C10] "uint-exact": err == ErrHdrOk && pcl_old.state != clFIN ==> pcl.SVal.Len > 0 && allDigits(buf, int(pcl.SVal.Offs), fend(pcl.SVal)) &&
+//@                 uint64(pcl.UIVal) == satdec(buf, int(pcl.SVal.Offs), fend(pcl.SVal))
+//@   ensures[C10] "uint-suspended": err == ErrHdrMoreBytes ==> clNum(pcl, buf, n)
+//@   ensures[C10] "uint-fin": pcl_old.state == clFIN ==> err == ErrHdrOk && *pcl == pcl_old
+
+//@ func ParseCLenVal(buf, offs, pcl) (n, err)
+//@   requires bufOK(buf) && 0 <= offs && offs <= len(buf) && pcl != nil && clOK(pcl, offs)
+//@   requires[C10] clNum(pcl, buf, offs) && (pcl.state == clFIN ==> clFinNum(pcl, buf))
+//@   modifies *pcl
+//@   ensures   0 <= n && n <= len(buf)
+//@   ensures   err == ErrHdrOk || err == ErrHdrMoreBytes ==> offs <= n && clOK(pcl, n)
+//@   ensures   within(pcl.SVal, len(buf))
+//@   ensures[C10] "clen-exact": err == ErrHdrOk ==> clFinNum(pcl, buf) && pcl.UIVal <= 1<<24 && pcl.SVal.Len <= 9
+//@   ensures[C10] "clen-suspended": err == ErrHdrMoreBytes ==> clNum(pcl, buf, n)
 
 //@ func ParseCallIDVal(buf, offs, pcid) (n, err)
 //@   requires  bufOK(buf) && 0 <= offs && offs <= len(buf) && pcid != nil && ciOK(pcid, offs)
@@ -147,9 +168,12 @@ package sipsp
 
 //@ func pUInt64Val(b) (n, err)
 //@   loop 0 "for _, c := range b"
-//@     invariant -1 <= rangeindex && rangeindex < len(b) && err == ErrHdrOk
+//@     invariant -1 <= rangeindex && rangeindex < len(b) && (err == ErrHdrOk || err == ErrHdrNumTooBig)
+//@     invariant[C10] allDigits(b, 0, rangeindex+1) && n == satdec(b, 0, rangeindex+1) && (err == ErrHdrNumTooBig ==> n == ^uint64(0))
 //@     decreases len(b) - rangeindex
-//@   ensures err == ErrHdrOk || err == ErrHdrValTooLong || err == ErrHdrValNotNumber
+//@   ensures err == ErrHdrOk || err == ErrHdrNumTooBig || err == ErrHdrValNotNumber
+//@   ensures[C10] "u64-exact": err == ErrHdrOk || err == ErrHdrNumTooBig ==> allDigits(b, 0, len(b)) && n == satdec(b, 0, len(b))
+//@   ensures[C10] "u64-notnumber": err == ErrHdrValNotNumber ==> !allDigits(b, 0, len(b))
 
 //@ func setFromParamVal(buf, pf) (err)
 //@   requires bufOK(buf) && pf != nil && 0 <= pf.pstart && pf.pend <= len(buf) && 0 <= pf.vstart && pf.vend <= len(buf)
@@ -159,6 +183,10 @@ package sipsp
 //@     decreases pf.vend - i
 //@   ensures pf.pstart == 0 && pf.pend == 0 && pf.vstart == 0 && pf.vend == 0
 //@   ensures pf.Tag == pf_old.Tag || (int(pf.Tag.Offs) == pf_old.vstart && fend(pf.Tag) == pf_old.vend && pf_old.vstart < pf_old.vend)
+//@   ensures[C10] "expires-saturates": pf_old.pstart < pf_old.pend && pf_old.vstart < pf_old.vend && nameIs(buf, pf_old.pstart, pf_old.pend, []byte("expires")) &&
+//@                 allDigits(buf, pf_old.vstart, pf_old.vend) ==> pf.HasExpires && pf.Expires == satu32(satdec(buf, pf_old.vstart, pf_old.vend))
+//@   ensures[C10] "expires-else-unchanged": !(pf_old.pstart < pf_old.pend && pf_old.vstart < pf_old.vend && nameIs(buf, pf_old.pstart, pf_old.pend, []byte("expires"))) ==>
+//@                 pf.Expires == pf_old.Expires && pf.HasExpires == pf_old.HasExpires
 
 //@ func ParseNameAddrPVal(h, buf, offs, pfrom) (n, err)
 //@   requires bufOK(buf) && 0 <= offs && offs <= len(buf) && pfrom != nil && fbOK(pfrom, offs, pfrom.soffs)
@@ -249,3 +277,10 @@ package sipsp
 //@   requires u != nil
 //@   modifies u.Params, u.Headers
 //@   ensures[C18] "truncate": u.Params == PField{} && u.Headers == PField{}
+
+// ---- numbers (C10) ----
+
+//@ func satdec(buf, a, b) (r)
+//@   uninterpreted buf a b
+//@   ensures b <= a ==> r == 0
+//@   ensures b > a ==> r == satstep(satdec(buf, a, b-1), buf[b-1]-'0')
